@@ -1315,6 +1315,8 @@ def _symmetry_test(ctx, t, pol, E, depth=0):
         name = t[1]
         if name.startswith("ytools.") and len(t[2]) >= 1:
             return _follow_predicate(ctx, YTOOLS, name.split(".", 1)[1], t, depth)
+        if "." not in name and len(t[2]) >= 1 and ctx.src.has_func(BULK, name):
+            return _follow_predicate(ctx, BULK, name, t, depth)
     return None
 
 
@@ -1432,7 +1434,7 @@ def _nasints(ctx):
     by_node = {}
     for e in fm:
         by_node.setdefault(id(e.node), []).append(e)
-    if len(by_node) < 2:
+    if len(by_node) < 1:
         raise AnchorError("wtnasints: formatted writes")
     labels = {}
     for evs in by_node.values():
@@ -1521,6 +1523,7 @@ def _tiling(ctx, E, q, seq, fn):
         npaths += 1
         wp = Lin()          # written up to (exclusive)
         loop_entry = {}
+        for_loops = {}
         for e in s.events:
             if e.kind == "while":
                 # induction hypothesis: at the head of the loop the counter equals the position written so far
@@ -1528,6 +1531,25 @@ def _tiling(ctx, E, q, seq, fn):
                 if cnt:
                     loop_entry[e.d["loop"]] = cnt[0]
                     wp = lin(e.d["env"][cnt[0]])
+            elif e.kind == "for" and isinstance(e.d["iter"], tuple) and e.d["iter"][:1] == ("range",) and isinstance(e.d["target"], Lin):
+                # for k in range(lo, N, step): each pass must write [k, min(k + step, N))
+                it = e.d["iter"]
+                r, w = _differs(lin(it[1]) - wp, e.facts)
+                if r is True:
+                    v.bad({"the loop starts at": show(it[1]), "written up to": show(wp), "differ for": w}, e.node)
+                elif r is None:
+                    v.unknown({"the loop starts at": show(it[1]), "written up to": show(wp)}, e.node)
+                for_loops[e.d["loop"]] = (e.d["target"], it)
+                wp = e.d["target"]
+            elif e.kind == "loopend" and e.d["loop"] in for_loops:
+                k_, it = for_loops[e.d["loop"]]
+                want = M.mk_min([k_ + it[3], it[2]], e.facts)
+                r, w = _differs(wp - want, e.facts)
+                if r is True:
+                    v.bad({"one pass writes up to": show(wp), "the next pass starts at": show(want), "differ for": w}, e.node)
+                elif r is None:
+                    v.unknown({"one pass writes up to": show(wp), "the next pass starts at": show(want)}, e.node)
+                wp = lin(it[2])           # by induction the passes cover [lo, hi)
             elif e.kind == "loopend" and e.d["loop"] in loop_entry:
                 nm = loop_entry[e.d["loop"]]
                 r, w = _differs(lin(e.d["env"][nm]) - wp, e.facts)
@@ -1654,10 +1676,10 @@ def _has_thru(v):
 
 
 RULES = [
-    ("C13-R1", r1_templates, 31),
+    ("C13-R1", r1_templates, 26),
     ("C13-R2", r2_nonempty_vector, 4),
     ("C13-R3", r3_reader_strides, 8),
-    ("C13-R4", r4_sequence_coverage, 7),
+    ("C13-R4", r4_sequence_coverage, 5),
 ]
 LEVEL = "other"
 EXPLANATION = ("Static: every hard-wired or default floating-point format in the bulk writers is checked to fit its field over all finite doubles "
